@@ -372,6 +372,8 @@ class ExprMixin:
             return v.items
         if isinstance(v, ObjV) and getattr(v.cls, "is_namedtuple", False):
             return [self.obj_attr(v, f.name, frame, node) for f in v.cls.fields]
+        if isinstance(v, DictV) and not any(k.startswith("\x00") for k in v.items):
+            return [StrV(k) for k in v.items]     # iterating a mapping yields its keys, in insertion order
         return None
 
     def elementwise(self, f, l, r, frame, node):
